@@ -251,7 +251,7 @@ impl Property for C02 {
         watchdog::idle();
 
         // generated: damaged corpus prefixes, mixed opener stacks, soups, random text
-        let cases = ctx.tier.pick(30_000, 600_000);
+        let cases = ctx.tier.pick(100_000, 600_000);
         let soup: Vec<&str> = FULL
             .iter()
             .filter(|t| !t.text.contains('\n') || t.text == "\n")
